@@ -50,12 +50,15 @@ TEXT.update({
     "C07": ("z3 over the LALR tables lalrpop generates from the current grammar (merged symbolic execution of the LR automaton: every operator "
             "tuple up to the bound groups as the documented precedence and left associativity prescribe; else-binding and chain templates), z3 "
             "regular-expression equivalence for the lexer's skip and token languages (no length bound), and Kani for the operator fold "
-            "(a op b = a.op(b), left fold). Counterexamples are replayed through /repo's real lexer and parser.",
-            "5 (C07)", "z3 over generated LALR tables and lexer regexes + Kani operator fold"),
+            "(a op b = a.op(b), left fold); the string and identifier token actions of the generated parser are executed symbolically from their MIR "
+            "on every ASCII token text of the token's regex up to a length bound (z3 strings). Counterexamples are replayed through /repo's real lexer and parser.",
+            "5, 5F (C07)", "z3 over generated LALR tables and lexer regexes + Kani operator fold + MIR/z3 symbolic execution of the generated parser's token actions"),
     "C10": ("The kernel harnesses double as failure checks: on every state where the documented step is undefined the kernel returns Err (or a "
             "listed Rust arithmetic panic), no other panic / unwrap / index / unreachable is reachable from any state of the shape, the fetch loop "
-            "stops at the first failure, and a failing print writes nothing. Partial: exit status and stderr are main.rs; native recursion depth "
-            "is not decided.", "5 (C10)", "Kani/CBMC failure conjuncts of the VM kernels + z3 over the dispatch MIR"),
+            "stops at the first failure, and a failing print writes nothing. print is executed from its MIR over every value graph of a 5-cell heap "
+            "shape, cyclic graphs included: unbounded native recursion on a value that reaches itself is found by the solver, replayed natively (SIGABRT) "
+            "and listed as a known finding. Partial: exit status and stderr are main.rs; native stack depth on long acyclic chains is not decided.",
+            "5, 5G (C10)", "Kani/CBMC failure conjuncts of the VM kernels + MIR/z3 symbolic execution of dispatch, print and value rendering over arbitrary value graphs"),
     "C11": ("Per-kernel noninterference by bounded model checking: a cross-section of serializer, compiler and VM kernels equals a reference "
             "that is a function of the harness inputs only; reachable clock / environment / randomness would be a Kani failure, and with overflow "
             "checks on, the absence of any failing arithmetic check makes debug and release compute the same function (the MIR/z3 task models "
@@ -85,8 +88,9 @@ TEXT.update({
     "C16": ("Bounded model checking of Heap::allocate accounting (returns the old length, appends one cell, adds exactly size() > 0, size depends "
             "on shape only) through a guarded read accessor, exactly one allocation per successful array creation and none on failure or in any "
             "other kernel, under an arbitrary --heap-size; array and object creation are decided on their MIR with z3 (one cell appended, "
-            "limit respected). Partial: the CSV file is I/O.",
-            "5A (C16)", "Kani/CBMC allocation accounting per kernel + MIR/z3 array / object creation"),
+            "limit respected); on the compiler side the emitted code of every AST template executes as many array / object instructions as the README's "
+            "evaluator creates arrays / objects (MIR/z3 compiler task). Partial: the CSV file is I/O.",
+            "5A, 5C (C16)", "Kani/CBMC allocation accounting per kernel + MIR/z3 array / object creation + MIR/z3 compiler templates with allocation counts"),
 })
 
 TEXT["C17"] = (
